@@ -759,3 +759,7 @@ mod tests {
         let _arr = BinaryArray::new_repeated(b"hello", ((i32::MAX as usize) / "hello".len()) + 1);
     }
 }
+
+#[cfg(kani)]
+#[path = "/verif/kani/arrow-array/array/byte_array.rs"]
+mod verif_kani;
